@@ -27,6 +27,15 @@ type c14Case struct {
 	A    int64  `json:"a,omitempty"`
 	B    int64  `json:"b,omitempty"`
 	F    string `json:"f,omitempty"`
+	Prev string `json:"prev,omitempty"` // text kinds: the variable read this text before (a value object may be read into again)
+}
+
+// c14Prev: earlier contents of the variable a text is read into, per kind ("" = fresh variable).
+var c14Prev = map[string][]string{
+	"int-text":   {"", "-77"},
+	"float-text": {"", "-1.5"},
+	"bool-text":  {"", "Y"},
+	"ts-text":    {"", "20240229-23:59:59", "20240229-23:59:59.123", "20240229-23:59:59.123456", "20240229-23:59:59.123456789"},
 }
 
 func safely(f func()) (pan string) {
@@ -162,6 +171,9 @@ func c14EvalInner(cs c14Case) (string, string) {
 	switch cs.Kind {
 	case "int-text":
 		var v quickfix.FIXInt
+		if cs.Prev != "" {
+			_ = v.Read([]byte(cs.Prev))
+		}
 		err := v.Read([]byte(cs.Text))
 		ok, val, fits := intGrammar(cs.Text)
 		if ok && !fits {
@@ -183,6 +195,9 @@ func c14EvalInner(cs c14Case) (string, string) {
 		}
 	case "float-text":
 		var v quickfix.FIXFloat
+		if cs.Prev != "" {
+			_ = v.Read([]byte(cs.Prev))
+		}
 		err := v.Read([]byte(cs.Text))
 		strict, lenient := floatGrammar(cs.Text)
 		if strict && err != nil {
@@ -200,6 +215,9 @@ func c14EvalInner(cs c14Case) (string, string) {
 		}
 	case "bool-text":
 		var v quickfix.FIXBoolean
+		if cs.Prev != "" {
+			_ = v.Read([]byte(cs.Prev))
+		}
 		err := v.Read([]byte(cs.Text))
 		ok := cs.Text == "Y" || cs.Text == "N"
 		if ok != (err == nil) {
@@ -213,6 +231,9 @@ func c14EvalInner(cs c14Case) (string, string) {
 		}
 	case "ts-text":
 		var v quickfix.FIXUTCTimestamp
+		if cs.Prev != "" {
+			_ = v.Read([]byte(cs.Prev))
+		}
 		err := v.Read([]byte(cs.Text))
 		ok, undecided, t, prec := tsGrammar(cs.Text)
 		if undecided {
@@ -380,7 +401,7 @@ func runC14(c *core.Ctx) {
 	} else {
 		c.SetDeadline(40 * time.Minute)
 	}
-	c.SetRule("int: all strings <= L over {0,1,9,-,+,space,.,e,a}; float: all strings <= L over {0,1,9,.,-,+,e,E,space,x,_,n,i}; boolean: all strings <= 2 over all 256 bytes; timestamp: ~40 canonical texts x every single and double position x 14 replacement characters, plus truncations and extensions; round trips over value grids (ints, floats k/2^n and shortest-repr corner cases, timestamps x precision x zone, decimals/udecimals x scale 0..6); hand-written recognisers of the FIX grammars as oracle")
+	c.SetRule("int: all strings <= L over {0,1,9,-,+,space,.,e,a}; float: all strings <= L over {0,1,9,.,-,+,e,E,space,x,_,n,i} plus every letter-case and sign variant of inf/infinity/nan; every text read into a fresh variable and into one that had read another value (timestamps: one of each precision) before; boolean: all strings <= 2 over all 256 bytes; timestamp: ~40 canonical texts x every single and double position x 14 replacement characters, plus truncations and extensions; round trips over value grids (ints, floats k/2^n and shortest-repr corner cases, timestamps x precision x zone, decimals/udecimals x scale 0..6); hand-written recognisers of the FIX grammars as oracle")
 	c.Assume("integers that do not fit int64 and seconds=60 are outside the domain", "float texts with a missing integer or fraction part ('.5', '5.') are not judged",
 		"no random sampling beyond the length bound (the statement's 'randomly beyond' is not covered)")
 	jobs := make(chan c14Case, 8192)
@@ -392,10 +413,21 @@ func runC14(c *core.Ctx) {
 			defer wg.Done()
 			var n int64
 			for cs := range jobs {
-				rule, what := c14Eval(cs)
-				n++
-				if rule != "" {
-					c.Violation(rule, what, "C14/case", cs)
+				prevs := c14Prev[cs.Kind]
+				if prevs == nil {
+					prevs = []string{""}
+				}
+				for _, pv := range prevs {
+					cs.Prev = pv
+					rule, what := c14Eval(cs)
+					n++
+					if rule != "" {
+						if pv != "" {
+							rule += " reused-variable"
+							what += fmt.Sprintf(" (the variable had read %q before)", pv)
+						}
+						c.Violation(rule, what, "C14/case", cs)
+					}
 				}
 			}
 			atomic.AddInt64(&evals, n)
@@ -413,6 +445,20 @@ func runC14(c *core.Ctx) {
 	allStrings([]byte("019.-+eE x_ni"), Lf, func(s string) { jobs <- c14Case{Kind: "float-text", Text: s} })
 	for _, s := range []string{"0.1", "00023.230", "-0.0", "123456789012345.678", "0.000000000000001", "1797693134862315708145274237317043567981", "Inf", "NaN", "0x10", "1e5", "1_0"} {
 		jobs <- c14Case{Kind: "float-text", Text: s}
+	}
+	// the words strconv.ParseFloat accepts beyond numerals, in every letter case, signed and unsigned
+	for _, w := range []string{"inf", "infinity", "nan", "infi", "in", "na"} {
+		for mask := 0; mask < 1<<len(w); mask++ {
+			b := []byte(w)
+			for i := range b {
+				if mask>>i&1 == 1 {
+					b[i] -= 32
+				}
+			}
+			for _, sign := range []string{"", "+", "-"} {
+				jobs <- c14Case{Kind: "float-text", Text: sign + string(b)}
+			}
+		}
 	}
 	for a := 0; a < 256; a++ {
 		jobs <- c14Case{Kind: "bool-text", Text: string([]byte{byte(a)})}
